@@ -36,5 +36,14 @@ func Run(cfg hx.Config) (*hx.Meta, error) {
 	if err := x.Run(cfg, meta); err != nil {
 		return nil, err
 	}
+	// hardening round 5: maps whose keys are (or contain) structs of an IMPORTED package with unexported
+	// fields: derived Hash leaves those fields out, so keys that agree in their exported fields hash alike
+	// and only the order derived Compare gives them (through reflect+unsafe) keeps the hash of the map
+	// independent of the order in which it was populated; keys that differ in unexported fields only,
+	// different values under them, many insertion orders
+	y := &ga.ExtraRun{VR: vr, Name: "privkeys", Types: cat.PrivKeyShapesR5(), Pool: ga.PrivKeyPoolR5, Probe: cfg.Tier == "thorough"}
+	if err := y.Run(cfg, meta); err != nil {
+		return nil, err
+	}
 	return meta, nil
 }
